@@ -1035,4 +1035,7 @@ func TestVerifC32(t *testing.T) {
 
 	// ---- the same strategy over the REAL blockImporter (zz_verif_c32_real_test.go)
 	c32RealGroups(r)
+
+	// ---- the closed loop: NextActions -> answers to the strategy's own requests -> Process (zz_verif_c32_loop_test.go)
+	c32LoopGroups(r)
 }
